@@ -169,6 +169,18 @@ MUTANTS = [
     ("C12-excluded-rollup-ends-loop", "T3", "an excluded rollup ends the loop: later rollups of the block are dropped",
      [(RL + "relayer/write/conversion.rs", "                self.meta.rollups_excluded.insert(elem.rollup_id());\n",
        "                self.meta.rollups_excluded.insert(elem.rollup_id());\n                break;\n", 0)]),
+    ("C01-fee-base-and-multiplier-swapped", "L4", "fee computed as multiplier + base * variable (accessors swapped)",
+     [(SQ + "checked_actions/utils.rs",
+       "        .checked_mul(fees.multiplier())\n        .and_then(|variable_fee| fees.base().checked_add(variable_fee))",
+       "        .checked_mul(fees.base())\n        .and_then(|variable_fee| fees.multiplier().checked_add(variable_fee))", 0)]),
+    ("C18-escrow-saturating-sub", "I1", "escrow debit saturates at zero instead of failing",
+     [(SQ + "ibc/state_ext.rs",
+       "        let new_balance = old_balance\n            .checked_sub(amount)\n            .ok_or_eyre(\"insufficient funds on ibc channel\")?;",
+       "        let new_balance = old_balance.saturating_sub(amount);", 0)]),
+    ("C03-swallowed-credit-failure", "N2", "a failed credit in BridgeLock::execute is logged and ignored",
+     [(SQ + "checked_actions/bridge/bridge_lock.rs",
+       "        state\n            .increase_balance(&self.action.to, &self.action.asset, self.action.amount)\n            .await\n            .wrap_err(\"failed to increase destination account balance\")?;\n\n        self.record_deposit(state);",
+       "        if let Err(error) = state\n            .increase_balance(&self.action.to, &self.action.asset, self.action.amount)\n            .await\n        {\n            tracing::warn!(%error, \"failed to increase destination account balance\");\n        }\n\n        self.record_deposit(state);", 0)]),
     ("C08-right-child-midpoint", "M4", "re-attached right child taken as the midpoint of the remaining nodes",
      [(MK + "lib.rs",
        "        let root = complete_root(n.checked_sub(i_plus_one).unwrap());\n        i_plus_one.checked_add(root).unwrap()",
